@@ -62,7 +62,7 @@ Qed.
 
 Lemma T_fifo s :
   Reachable s ->
-  arrivals s = admitted s ++ wq s /\
+  arrivals s = granted s ++ wq s /\
   Forall2 (fun t e => wo (pcs s t) = Some e) (wq s) (Q s) /\
   (forall t e, wo (pcs s t) = Some e -> In t (wq s)).
 Proof.
@@ -70,10 +70,10 @@ Proof.
   split; [apply (b_f1 s HB)|]. split; [apply (b_q1 s HB)|apply (b_q2 s HB)].
 Qed.
 
-(* the next writer admitted is the head of the queue, or - only when nobody is queued - a newcomer *)
+(* the next writer granted is the head of the queue, or - only when nobody is queued - a newcomer *)
 Lemma T_admission_order s t ev :
   Reachable s -> pcs s t = Crit (CWriterTest ev) ->
-  admitted (step s t) = admitted s ++ [t] ->
+  granted (step s t) = granted s ++ [t] ->
   (exists rest, ev <> None /\ wq s = t :: rest /\ wq (step s t) = rest) \/
   (ev = None /\ wq s = [] /\ wq (step s t) = []).
 Proof.
@@ -153,7 +153,7 @@ Qed.
 Lemma T_serial_equivalence s :
   Reachable s ->
   hist (vz s) = serial (map (prg s) (ended s)) /\
-  admitted s = ended s ++ match wtxn s with Some t => [t] | None => [] end /\
+  granted s = ended s ++ match wtxn s with Some t => [t] | None => [] end /\
   (exists dropped, hist (vz s) = dropped ++ versions (vz s)) /\
   (exists v, last_opt (versions (vz s)) = Some v /\ last_opt (hist (vz s)) = Some v).
 Proof.
@@ -167,9 +167,9 @@ Qed.
    transactions of all writers *)
 Lemma T_final_state s :
   Reachable s -> (forall t, pcs s t = Done) ->
-  wtxn s = None /\ wq s = [] /\ arrivals s = admitted s /\ ended s = admitted s /\
-  hist (vz s) = serial (map (prg s) (admitted s)) /\
-  last_opt (versions (vz s)) = last_opt (serial (map (prg s) (admitted s))).
+  wtxn s = None /\ wq s = [] /\ arrivals s = granted s /\ ended s = granted s /\
+  hist (vz s) = serial (map (prg s) (granted s)) /\
+  last_opt (versions (vz s)) = last_opt (serial (map (prg s) (granted s))).
 Proof.
   intros R Hd. pose proof (reachable_winv s R) as [HA HB HC HD].
   assert (Hw : wtxn s = None).
@@ -215,7 +215,7 @@ Proof. intros R. apply (d_nofail s (w_d s (reachable_winv s R))). Qed.
 Lemma T_orders_append_only s t :
   Reachable s -> enabled s t = true ->
   (arrivals (step s t) = arrivals s \/ arrivals (step s t) = arrivals s ++ [t]) /\
-  (admitted (step s t) = admitted s \/ admitted (step s t) = admitted s ++ [t]) /\
+  (granted (step s t) = granted s \/ granted (step s t) = granted s ++ [t]) /\
   (ended (step s t) = ended s \/ ended (step s t) = ended s ++ [t]).
 Proof.
   intros R He. unfold step.
@@ -320,7 +320,7 @@ Proof.
 Qed.
 
 (* every step strictly decreases the weight of the thread that moves (in particular a woken
-   writer is admitted: the loop in writer() runs at most twice) and leaves the others alone *)
+   writer is granted: the loop in writer() runs at most twice) and leaves the others alone *)
 Lemma T_progress s t :
   Reachable s -> enabled s t = true ->
   weight (nedits s t) (pcs (step s t) t) < weight (nedits s t) (pcs s t).
@@ -362,12 +362,12 @@ Proof.
   - discriminate.
 Qed.
 
-Lemma T_woken_writer_is_admitted s t e :
+Lemma T_woken_writer_is_granted s t e :
   Reachable s -> pcs s t = Crit (CWriterTest (Some e)) ->
-  pcs (step s t) t = Rel SetupId /\ wtxn (step s t) = Some t /\ admitted (step s t) = admitted s ++ [t].
+  pcs (step s t) t = Rel SetupId /\ wtxn (step s t) = Some t /\ granted (step s t) = granted s ++ [t].
 Proof.
   intros R Hpc. pose proof (w_b s (reachable_winv s R)) as HB.
-  destruct (woken_admits s t e HB) as [Hw He]; [rewrite Hpc; reflexivity|rewrite Hpc; reflexivity|].
+  destruct (woken_is_granted s t e HB) as [Hw He]; [rewrite Hpc; reflexivity|rewrite Hpc; reflexivity|].
   unfold step. rewrite Hpc. cbn [exec_crit]. rewrite Hw, He. cbn. rewrite Nat.eqb_refl. cbn.
   rewrite upd_same. repeat split; reflexivity.
 Qed.
